@@ -433,6 +433,20 @@ def run(ctx):
                        "zero tests found on: %s; one whose zero outcome cannot reach this min(): %s — min(0, x) = 0 turns 'this endpoint "
                        "advertises no idle timeout' into 'idle timeout disabled', so an idle connection is never closed although the peer "
                        "asked for a limit" % (sorted(set(z for z, _ in ztests)), ok))
+    # ---------------------------------------------------------------- R7 by reference
+    ctx.rule("R7", "a failure wakes the task that is really waiting: single-waker slots are registered by replacing, resets wake "
+                   "unconditionally (C16-W8/W9 obligations re-evaluated)")
+    import importlib
+    from qlint import framework as fw
+    sub = fw.Ctx("C16", ctx.tier, ctx.seed, prog)
+    importlib.import_module("rules.C16").run(sub)
+    n7 = 0
+    for o in sub.obs:
+        if o.rule in ("W8", "W9") and "floor:" not in o.key:
+            n7 += 1
+            ctx.ob("R7", "C16:%s" % o.key, o.ok, o.where, o.detail)
+    ctx.functions |= sub.functions
+    ctx.floor("R7", "obligations inherited from C16-W8/W9", n7, 12)
     ctx.assume("tokio::sync::SetOnce::set fails (does not overwrite) when already set")
 
 
